@@ -1,4 +1,5 @@
 import EupsModel.Lemmas.Expand
+import EupsModel.Lemmas.ExpandDeps
 /-! C17 — an expanded table file reproduces the build-time versions exactly.  Property theorems only
 (the model is `Model/Expand.lean`, helper lemmas are in `Lemmas/Expand.lean`).
 
@@ -97,6 +98,25 @@ theorem C17_never_foreign_text (A : Answers) (o : Opts) (lines : List Str) (item
       subst hdn; subst hdv
       exact .inl (hs n0 v0 dl hdl d hd)
   · simp at hl
+
+/-- **`DepsSound` discharged from the C13 model of the dependency listing** (`Model/Deps.lean`): take the answers of
+`getDependencies(n, v, setup=True, shouldRaise=True)` to be what the C13 model computes (`depsOfModel`:
+`findProduct(n, v)`, then `Deps.getDependentProductsSetup`, not topological; `raises` = the answers for which
+`shouldRaise=True` raised, arbitrary) and `getSetupVersion` to read the same `SETUP_<P>` records `setup` as the listing;
+then `DepsSound` holds, for every database, every records list and every fuel. -/
+theorem C17_DepsSound_from_Deps (db : Deps.Db) (fuel : Nat) (setup : List (Str × Str)) (raises : Str → Str → Bool)
+    (A : Answers) (hsv : ∀ n, A.sv n = setup.lookup n)
+    (hdeps : ∀ n v, A.deps n v = depsOfModel db fuel setup raises n v) : DepsSound A :=
+  depsSound_of_depsModel db fuel setup raises A hsv hdeps
+
+/-- `C17_never_foreign` with `DepsSound` discharged: when the dependency listings are those of the C13 model, every
+`-j v` line of the exact block names a set-up `(n, v)` or a `-p` pin — no hypothesis on the listings left. -/
+theorem C17_never_foreign_over_Deps (db : Deps.Db) (fuel : Nat) (setup : List (Str × Str)) (raises : Str → Str → Bool)
+    (A : Answers) (hsv : ∀ n, A.sv n = setup.lookup n)
+    (hdeps : ∀ n v, A.deps n v = depsOfModel db fuel setup raises n v)
+    (o : Opts) (lines : List Str) (items : List Item) (h : expandItems A o lines = .ok items)
+    (ind : Int) (opt : Bool) (n v : Str) (hx : Item.pin ind opt n v ∈ items) : Recorded A n v :=
+  C17_never_foreign A o lines items (depsSound_of_depsModel db fuel setup raises A hsv hdeps) h ind opt n v hx
 
 /-! ## keeps the original constraints for inexact mode -/
 
@@ -443,6 +463,23 @@ example : (match parseArgs (str! "b >= 1") with
     | .error _ => false) = true := by decide +kernel
 example : decideRewrite D1.toAnswers o1 false ⟨str! "b", [], none, some (str! ">= 1")⟩
     = some ⟨false, str! "b", [], some (str! "1"), some (str! ">= 1")⟩ := by decide +kernel
+
+/-- `C17_DepsSound_from_Deps` is not vacuous: a C13 database `a 1 → b 1 → c (current 2)`, records `b 1`, `c 2`; the model's
+listing for `b 1` is `[c 2]`, and the answers built from it satisfy the theorem's hypotheses by definition. -/
+def depsDb1 : Deps.Db :=
+  { decls := [⟨str! "a", str! "1", [⟨false, false, str! "b", none, false, false⟩], false⟩,
+              ⟨str! "b", str! "1", [⟨false, false, str! "c", none, false, false⟩], false⟩,
+              ⟨str! "c", str! "1", [], false⟩, ⟨str! "c", str! "2", [], false⟩],
+    current := [(str! "b", str! "1"), (str! "c", str! "1")] }
+def setup1 : List (Str × Str) := [(str! "a", str! "1"), (str! "b", str! "1"), (str! "c", str! "2")]
+def A1 : Answers :=
+  { pin := fun _ => none, spv := fun n => setup1.lookup n, sv := fun n => setup1.lookup n,
+    deps := depsOfModel depsDb1 depsDb1.fuel setup1 (fun _ _ => false) }
+example : (match A1.deps (str! "b") (str! "1") with
+    | .ok l => l == [⟨str! "c", str! "2", false⟩]      -- the set-up version 2, not the current one
+    | _ => false) = true := by decide +kernel
+example : DepsSound A1 :=
+  C17_DepsSound_from_Deps depsDb1 depsDb1.fuel setup1 (fun _ _ => false) A1 (fun _ => rfl) (fun _ _ => rfl)
 
 /-! ### negation witnesses: the two ways `C17_exact_reproduces` failed on the pinned tree -/
 
